@@ -115,6 +115,9 @@ func Alphabet(corner bool) []Sym {
 		add("aka", fmt.Sprintf("add-aka/%v", l), `{"action":"add-also-known-as","uris":[`+js+`]}`)
 		add("aka", fmt.Sprintf("remove-aka/%v", l), `{"action":"remove-also-known-as","uris":[`+js+`]}`)
 	}
+	add("aka", "add-aka/unusual-spellings", `{"action":"add-also-known-as","uris":["HTTPS://Upper.example/Me","https://x.example/me#"]}`)
+	add("aka", "remove-aka/unusual-spelling", `{"action":"remove-also-known-as","uris":["HTTPS://Upper.example/Me"]}`)
+	add("aka", "add-aka/normalised-twin", `{"action":"add-also-known-as","uris":["https://Upper.example/Me"]}`)
 	kopts := []string{``, arr(key("k1", 1)), arr(key("k2", 0), key("k4", 1))}
 	sopts := []string{``, arr(svc("s1", 1)), arr(svc("s2", 0), svc("s4", 1))}
 	for ki, k := range kopts {
